@@ -176,3 +176,32 @@ func updateFileDataWithPointsList(db *whispertool.Whisper, pointsList PointsList
 	}
 	return nil
 }
+
+// updateFileDataWithDiff updates db with the points in srcTsList which
+// differ from the points in db, and returns the points written.
+//
+// Archives are updated one by one from the highest resolution and the
+// points in db are read again just before updating each archive, since
+// updating an archive also rewrites the aggregated points in the lower
+// resolution archives.
+func updateFileDataWithDiff(db *whispertool.Whisper, srcTsList TimeSeriesList, archiveID int, from, until, now whispertool.Timestamp, copyNaN bool) (PointsList, error) {
+	srcPlDif := make(PointsList, len(srcTsList))
+	for i, srcTs := range srcTsList {
+		if archiveID != ArchiveIDAll && archiveID != i {
+			continue
+		}
+		destTs, err := db.FetchFromArchive(i, from, until, now)
+		if err != nil {
+			return nil, err
+		}
+		if copyNaN {
+			srcPlDif[i], _ = srcTs.DiffPoints(destTs)
+		} else {
+			srcPlDif[i], _ = srcTs.DiffPointsExcludeSrcNaN(destTs)
+		}
+		if err := db.UpdatePointsForArchive(srcPlDif[i], i, now); err != nil {
+			return nil, err
+		}
+	}
+	return srcPlDif, nil
+}
